@@ -134,12 +134,13 @@ theorem apply_wire {v v' : View} {e e' : Env} {a : Act} (hg : Guarded a)
       · simp at h
       · split at h
         · simp at h
-        · split at h
-          · simp at h
-          · rename_i hsd
-            simp at h; obtain ⟨_, rfl⟩ := h
-            simp at hsd
-            exact emit_wire (n := n) rfl (by intro m; simp) hsd h1 h2
+        · rename_i hsd
+          simp only [Option.some.injEq, Prod.mk.injEq] at h
+          obtain ⟨_, rfl⟩ := h
+          simp at hsd
+          split
+          · exact ⟨h1, h2⟩
+          · exact emit_wire (n := n) rfl (by intro m; simp) hsd h1 h2
   | shut n => simp [apply] at h; obtain ⟨_, rfl⟩ := h; exact shutdown_wire h1 h2
   | steal n k =>
     simp only [apply] at h
@@ -154,9 +155,12 @@ theorem apply_wire {v v' : View} {e e' : Env} {a : Act} (hg : Guarded a)
         · split at h
           · simp at h
           · rename_i hsd
-            simp at h; obtain ⟨_, rfl⟩ := h
+            simp only [Option.some.injEq, Prod.mk.injEq] at h
+            obtain ⟨_, rfl⟩ := h
             simp at hsd
-            exact emit_wire (n := n) rfl (by intro m; simp) hsd.2 h1 h2
+            split
+            · exact ⟨h1, h2⟩
+            · exact emit_wire (n := n) rfl (by intro m; simp) hsd h1 h2
   | report n f =>
     simp [apply] at h; obtain ⟨_, rfl⟩ := h
     unfold Env.emit
